@@ -265,6 +265,111 @@ class ValidateFx(Case):
             yield {"fx": fx}
 
 
+class CreateConfigGrid(Case):
+    """bounded: QcConfigCreator.create_config on synthetic climatologies that are constant in time
+    (written as netCDF3 files with the scipy engine, read back by the real code): the spans equal the
+    limit expressions evaluated on min / max / mean / std of the cells inside the bounding box.  Grids,
+    bounding boxes (edges on and between grid lines) and date ranges are enumerated; xarray / scipy
+    interpolation is outside any contract within reach."""
+
+    is_bounded = True
+    module = "ioos_qc.config_creator.config_creator"
+    function = "QcConfigCreator.create_config"
+    default_props = {}
+    props = {"bounded.create_config_spans": ("C20",)}
+
+    def all_props(self):
+        return {"C20"}
+
+    LAT = [10.0, 11.0, 12.0, 13.0]
+    LON = [-70.0, -69.0, -68.0, -67.0, -66.0]
+    FIELDS = {
+        "squares": lambda i, j: 1.0 + float(5 * i + j) ** 2,
+        "ramp": lambda i, j: 0.5 * i - 1.25 * j + 3.0,
+        "mixed": lambda i, j: float((-1) ** (i + j)) * (2.0 + i + 0.5 * j) + 1.0,
+        # anomalies around zero: inside a box that is symmetric about the middle column the cells sum to 0
+        "anomaly": lambda i, j: float(j - 2) * (1.0 + i),
+    }
+    EXPRS = {"suspect_min": "min", "suspect_max": "max", "fail_min": "mean - 2 * std", "fail_max": "( max + min ) / 2 + std"}
+
+    def one(self, values):
+        import logging
+        import tempfile
+        import warnings
+        from pathlib import Path
+
+        import numpy as np
+        import pandas as pd
+        import xarray as xr
+
+        from pyvc import replay
+
+        mod = replay.real_module(self.module)
+        lat, lon = np.array(self.LAT), np.array(self.LON)
+        f = self.FIELDS[values["field"]]
+        cells = np.array([[f(i, j) for j in range(lon.size)] for i in range(lat.size)], dtype="float64")
+        time = pd.to_datetime(["2001-%02d-15" % m for m in range(1, 13)])
+        field = np.broadcast_to(cells, (time.size, lat.size, lon.size)).copy()
+        ds = xr.Dataset({"t_an": (("time", "lat", "lon"), field)}, coords={"time": time, "lat": lat, "lon": lon})
+        bbox = [float(b) for b in values["bbox"]]
+        logging.disable(logging.CRITICAL)
+        try:
+            with tempfile.TemporaryDirectory() as tmp, warnings.catch_warnings():
+                warnings.simplefilter("ignore")
+                path = Path(tmp) / "clim.nc"
+                ds.to_netcdf(path, engine="scipy")
+                creator = mod.QcConfigCreator(mod.CreatorConfig({"datasets": [{"name": "clim", "file_path": str(path), "variables": {"temperature": "t_an"}}]}))
+                vc = mod.QcVariableConfig({"variable": "temperature", "bbox": list(bbox), "start_time": values["start"], "end_time": values["end"], "tests": {"gross_range_test": dict(self.EXPRS)}})
+                got = creator.create_config(vc)["temperature"]["qartod"]["gross_range_test"]
+        except Exception as e:  # noqa: BLE001
+            return "create_config raised %r" % (e,)
+        finally:
+            logging.disable(logging.NOTSET)
+        inside = cells[np.ix_((lat >= bbox[1]) & (lat <= bbox[3]), (lon >= bbox[0]) & (lon <= bbox[2]))]
+        if inside.size == 0:
+            return None  # no cell inside the box: the statement does not say what the spans are
+        mn, mx, mean, std = inside.min(), inside.max(), inside.mean(), inside.std()
+        want = {"suspect_span": [mn, mx], "fail_span": [mean - 2 * std, (mx + mn) / 2 + std]}
+        for k_, w in want.items():
+            if not np.allclose(np.array(got[k_], dtype=float), w, rtol=1e-9, atol=1e-9):
+                return "%s = %s, statistics of the %d cells inside the box give %s" % (k_, [float(x) for x in got[k_]], inside.size, [float(x) for x in w])
+        return None
+
+    def region_of(self, values):
+        import numpy as np
+
+        lat, lon = np.array(self.LAT), np.array(self.LON)
+        f = self.FIELDS[values["field"]]
+        b = [float(x) for x in values["bbox"]]
+        inside = [f(i, j) for i in range(lat.size) for j in range(lon.size) if b[1] <= lat[i] <= b[3] and b[0] <= lon[j] <= b[2]]
+        if inside and abs(sum(inside)) < 1e-12:
+            return "cells-sum-to-zero"
+        return "grid"
+
+    def bounded_checks(self, tier, rng):
+        boxes = [
+            [-69.5, 10.5, -66.5, 12.5],  # every edge between grid lines
+            [-69.0, 11.0, -67.0, 12.0],  # every edge on a grid line
+            [-69.5, 10.5, -67.0, 12.5],  # east edge on a grid line
+            [-69.0, 10.5, -66.5, 12.5],  # west edge on a grid line
+            [-69.5, 11.0, -66.5, 12.5],  # south edge on a grid line
+            [-69.5, 10.5, -66.5, 12.0],  # north edge on a grid line
+            [-68.0, 12.0, -68.0, 12.0],  # a single cell
+            [-70.0, 10.0, -66.0, 13.0],  # the whole grid
+        ]
+        dates = [("2021-03-01", "2021-04-01"), ("2021-06-10", "2021-06-20"), ("2021-01-01", "2021-12-31")]
+        if tier == "quick":
+            dates = dates[:2]
+        for fld in self.FIELDS:
+            for b in boxes:
+                for (s0, s1) in dates:
+                    v = {"field": fld, "bbox": b, "start": s0, "end": s1}
+                    yield ("create_config", self.region_of(v), v, (lambda v=v: self.one(v)))
+
+    def replay_bounded(self, label, values):
+        return self.one(values)
+
+
 def cases():  # noqa: F811
     cs = [EvalStack(node=n) for n in ("+", "-", "*", "/", "unary -", "mean", "min", "max", "std", "PI", "E", "number", "badident")]
     cs.append(ValidateFx())
@@ -427,9 +532,115 @@ class FxGrammar(Case):
         return None if abs(got - float(values["value"])) < 1e-9 else "eval_fx(%r) = %r, expected %r" % (values["text"], got, values["value"])
 
 
+class CreateConfigGrid(Case):
+    """bounded: QcConfigCreator.create_config on synthetic climatologies that are constant in time
+    (written as netCDF3 files with the scipy engine, read back by the real code): the spans equal the
+    limit expressions evaluated on min / max / mean / std of the cells inside the bounding box.  Grids,
+    bounding boxes (edges on and between grid lines) and date ranges are enumerated; xarray / scipy
+    interpolation is outside any contract within reach."""
+
+    is_bounded = True
+    module = "ioos_qc.config_creator.config_creator"
+    function = "QcConfigCreator.create_config"
+    default_props = {}
+    props = {"bounded.create_config_spans": ("C20",)}
+
+    def all_props(self):
+        return {"C20"}
+
+    LAT = [10.0, 11.0, 12.0, 13.0]
+    LON = [-70.0, -69.0, -68.0, -67.0, -66.0]
+    FIELDS = {
+        "squares": lambda i, j: 1.0 + float(5 * i + j) ** 2,
+        "ramp": lambda i, j: 0.5 * i - 1.25 * j + 3.0,
+        "mixed": lambda i, j: float((-1) ** (i + j)) * (2.0 + i + 0.5 * j) + 1.0,
+        # anomalies around zero: inside a box that is symmetric about the middle column the cells sum to 0
+        "anomaly": lambda i, j: float(j - 2) * (1.0 + i),
+    }
+    EXPRS = {"suspect_min": "min", "suspect_max": "max", "fail_min": "mean - 2 * std", "fail_max": "( max + min ) / 2 + std"}
+
+    def one(self, values):
+        import logging
+        import tempfile
+        import warnings
+        from pathlib import Path
+
+        import numpy as np
+        import pandas as pd
+        import xarray as xr
+
+        from pyvc import replay
+
+        mod = replay.real_module(self.module)
+        lat, lon = np.array(self.LAT), np.array(self.LON)
+        f = self.FIELDS[values["field"]]
+        cells = np.array([[f(i, j) for j in range(lon.size)] for i in range(lat.size)], dtype="float64")
+        time = pd.to_datetime(["2001-%02d-15" % m for m in range(1, 13)])
+        field = np.broadcast_to(cells, (time.size, lat.size, lon.size)).copy()
+        ds = xr.Dataset({"t_an": (("time", "lat", "lon"), field)}, coords={"time": time, "lat": lat, "lon": lon})
+        bbox = [float(b) for b in values["bbox"]]
+        logging.disable(logging.CRITICAL)
+        try:
+            with tempfile.TemporaryDirectory() as tmp, warnings.catch_warnings():
+                warnings.simplefilter("ignore")
+                path = Path(tmp) / "clim.nc"
+                ds.to_netcdf(path, engine="scipy")
+                creator = mod.QcConfigCreator(mod.CreatorConfig({"datasets": [{"name": "clim", "file_path": str(path), "variables": {"temperature": "t_an"}}]}))
+                vc = mod.QcVariableConfig({"variable": "temperature", "bbox": list(bbox), "start_time": values["start"], "end_time": values["end"], "tests": {"gross_range_test": dict(self.EXPRS)}})
+                got = creator.create_config(vc)["temperature"]["qartod"]["gross_range_test"]
+        except Exception as e:  # noqa: BLE001
+            return "create_config raised %r" % (e,)
+        finally:
+            logging.disable(logging.NOTSET)
+        inside = cells[np.ix_((lat >= bbox[1]) & (lat <= bbox[3]), (lon >= bbox[0]) & (lon <= bbox[2]))]
+        if inside.size == 0:
+            return None  # no cell inside the box: the statement does not say what the spans are
+        mn, mx, mean, std = inside.min(), inside.max(), inside.mean(), inside.std()
+        want = {"suspect_span": [mn, mx], "fail_span": [mean - 2 * std, (mx + mn) / 2 + std]}
+        for k_, w in want.items():
+            if not np.allclose(np.array(got[k_], dtype=float), w, rtol=1e-9, atol=1e-9):
+                return "%s = %s, statistics of the %d cells inside the box give %s" % (k_, [float(x) for x in got[k_]], inside.size, [float(x) for x in w])
+        return None
+
+    def region_of(self, values):
+        import numpy as np
+
+        lat, lon = np.array(self.LAT), np.array(self.LON)
+        f = self.FIELDS[values["field"]]
+        b = [float(x) for x in values["bbox"]]
+        inside = [f(i, j) for i in range(lat.size) for j in range(lon.size) if b[1] <= lat[i] <= b[3] and b[0] <= lon[j] <= b[2]]
+        if inside and abs(sum(inside)) < 1e-12:
+            return "cells-sum-to-zero"
+        return "grid"
+
+    def bounded_checks(self, tier, rng):
+        boxes = [
+            [-69.5, 10.5, -66.5, 12.5],  # every edge between grid lines
+            [-69.0, 11.0, -67.0, 12.0],  # every edge on a grid line
+            [-69.5, 10.5, -67.0, 12.5],  # east edge on a grid line
+            [-69.0, 10.5, -66.5, 12.5],  # west edge on a grid line
+            [-69.5, 11.0, -66.5, 12.5],  # south edge on a grid line
+            [-69.5, 10.5, -66.5, 12.0],  # north edge on a grid line
+            [-68.0, 12.0, -68.0, 12.0],  # a single cell
+            [-70.0, 10.0, -66.0, 13.0],  # the whole grid
+        ]
+        dates = [("2021-03-01", "2021-04-01"), ("2021-06-10", "2021-06-20"), ("2021-01-01", "2021-12-31")]
+        if tier == "quick":
+            dates = dates[:2]
+        for fld in self.FIELDS:
+            for b in boxes:
+                for (s0, s1) in dates:
+                    v = {"field": fld, "bbox": b, "start": s0, "end": s1}
+                    yield ("create_config", self.region_of(v), v, (lambda v=v: self.one(v)))
+
+    def replay_bounded(self, label, values):
+        return self.one(values)
+
+
 def cases():  # noqa: F811
     cs = [EvalStack(node=n) for n in ("+", "-", "*", "/", "unary -", "mean", "min", "max", "std", "PI", "E", "number", "badident")]
     cs.append(ValidateFx())
     cs.append(EvalFx())
     cs.append(FxGrammar())
+    cs.append(CreateConfigGrid())
     return cs
